@@ -99,6 +99,12 @@ impl Parser {
             None => return Err(ProtocolError::Overflow),
         };
 
+        // a frame that announces more than the allowed size is refused as soon as its header is
+        // known, instead of first buffering the whole payload
+        if length > max_size && src.len() < frame_len {
+            return Err(ProtocolError::Overflow);
+        }
+
         // not enough data
         if src.len() < frame_len {
             let min_length = min(length, max_size);
